@@ -461,7 +461,7 @@ func rollbackName(call *ssa.Call) string {
 }
 
 func r16e(c *an.Ctx) {
-	c.Rule("R16e", "executor answers are built from the transitioner's (state, error) pair unchanged", 3)
+	c.Rule("R16e", "executor answers are built from the transitioner's (state, error) pair unchanged", 5)
 	for _, name := range []string{"ControllableTask.Transition", "basicTaskBase.Transition"} {
 		fn := c.Fn("executor/executable", name)
 		if fn == nil {
@@ -511,6 +511,31 @@ func r16e(c *an.Ctx) {
 			}
 		}
 		c.Ob("executor/executorcmd.(*ExecutorCommand_Transition).Commit|passthrough", fn.Pos(), ok, "Commit returns the transitioner's pair unchanged")
+	}
+	// the response builders: the state and error put into the answer are the parameters, unmodified
+	if fn := c.MustFn("executor/executorcmd", "ExecutorCommand_Transition.PrepareResponse"); fn != nil {
+		c.Subject()
+		ok := false
+		for _, ci := range an.Calls(fn, func(n string, _ ssa.CallInstruction) bool {
+			return strings.HasSuffix(n, "controlcommands.NewMesosCommandResponse_Transition")
+		}) {
+			a := ci.Common().Args // cmd, err, state, taskId
+			if len(a) == 4 && len(fn.Params) >= 3 && a[1] == ssa.Value(fn.Params[1]) && a[2] == ssa.Value(fn.Params[2]) {
+				ok = true
+			}
+		}
+		c.Ob("executor/executorcmd.(*ExecutorCommand_Transition).PrepareResponse|state-and-error-unchanged", fn.Pos(), ok,
+			"the response must carry exactly the error and the state it was given: substituting another state (e.g. the source state for an empty one) reports a state the device is not in")
+	}
+	if fn := c.MustFn("core/controlcommands", "NewMesosCommandResponse_Transition"); fn != nil {
+		c.Subject()
+		ok := false
+		an.Instrs(fn, func(in ssa.Instruction) {
+			if st, isSt := in.(*ssa.Store); isSt && isFieldNamed(st.Addr, "CurrentState") && len(fn.Params) >= 3 && st.Val == ssa.Value(fn.Params[2]) {
+				ok = true
+			}
+		})
+		c.Ob("core/controlcommands.NewMesosCommandResponse_Transition|state-field-is-argument", fn.Pos(), ok, "the CurrentState field of the response is the state argument")
 	}
 }
 
